@@ -9,6 +9,20 @@ CHECKS = {
    text='Theorems get_bit_spec/set_bit_spec/set_then_get/set_bit_eq_spec: for all four underlying types, every value and every index inside the width, the extracted get/set kernels (C++ integer semantics incl. promotion and UB) compute exactly Nat.testBit / the single-bit update. The kernels are re-extracted from bitset_base on every run, so an edit to the shift/mask expressions breaks a proof obligation; the harness then searches for a failing input.',
    note='Trusted: Lean kernel, extract/cxx.py expression translator, CInt.lean encoding of C++ integer rules, the C++ harness. Generated choice accessors pass the index as a literal (checked by Layer G in C18/C01 when available). Constant evaluation not separately executed.'),
 }
+CHECKS.update({
+ 'C14': dict(
+   technique='Lean 4 proof (induction over unbounded N/contents, framed buffer) of a hand-transliterated model against a list specification + exhaustive small-scope differential correspondence incl. compile-time constant-evaluation tables',
+   text='30 theorems: run_agrees_spec (model = specification for every operation, eos mode and input length), per-overload *_spec, assign_frame (nothing outside the array changes), no_assert_in_contract / assert_outside_contract, strlen_spec / strlen_r_spec / strlen_ce_spec, uniqueness of the specification. The model is hand-written; the correspondence check runs the real static_array_ref (guard bytes on both sides, checked build, 5 source-range kinds, both byte types) and the model on the same requests: exhaustive for N<=4 (quick) / N<=6 (thorough) over a 3-letter alphabet.',
+   note='Trusted: Lean kernel; the hand transliteration Rt/StaticArray.lean is tied to the code only by the differential check (bounded scope); harness; compilers. Copy-before-assert overflow of assign_range with over-long input is outside the precondition (proved as assign_range_overflow, relevant to C10).'),
+ 'C02': dict(
+   technique='Lean 4 proof by mutual structural induction over the nested group tree (runtime walk model = value tree, any nesting/counts/lengths) + Layer R: real sbeppc output compiled into generated drivers decoding reference images printed by the Lean specification',
+   text='decode_image: for every resolved layout and every well-formed image the runtime model (positions computed only from blockLength/numInGroup/length values read back from the buffer, as message_base/entry_base/group bases/dynamic_array_ref do) observes exactly the value tree, and the size it computes is the image length; scalar_roundtrip/scalar_bytes_roundtrip: get/put are mutually inverse on bit patterns (floats incl. NaN payloads are bit patterns). Correspondence: generated schemas (all primitive types, both byte orders, custom offsets/blockLengths, refs, inline composites, constants, nested groups, data, every unsigned header type) -> real sbeppc -> generated driver (random access and cursor) vs specification vs model.',
+   note='Trusted: Lean kernel; the layout resolver model (Schema/Resolve.lean) and walk model are hand-written and tied to sbeppc + sbepp.hpp by the differential check only; XML->S-expression rendering in vlib/schema.py; drivers. Leaf-inside-block well-formedness is a hypothesis checked at run time per schema. Constant evaluation not exercised. Byteswap fallback formula (dead code under gcc/clang) not modelled.'),
+ 'C03': dict(
+   technique='same theorem family as C02 stated for arbitrary wire block lengths >= compiled (schema extension) + Layer R with inflated images',
+   text='decode_image_ext, size_bytes_ext, first_dynamic_member_at_wire_block_end, entry_stride (flat: header end + i*wire blockLength), entry_chain (nested). Correspondence: images whose root and per-group-instance block lengths exceed the compiled ones by 0,1,7,8 bytes, decoded by random access and cursor; sizes compared with the image length.',
+   note='As C02. Known finding C03-empty-message-cursor-size (cursor-based size of a member-less message).'),
+})
 NOT_APPLICABLE = {}
 
 ALL = ['C%02d' % i for i in range(1, 21)]
